@@ -61,6 +61,8 @@ pub static INFO: PropInfo = PropInfo {
         ("hist.disconnect_cli", 10),
         ("hist.reconnects", 10),
         ("hist.failover", 3),
+        ("hist.failover_after_response_step", 5),
+        ("hist.failover_connected_at_second_server", 5),
         ("hist.connected_sessions", 100),
         ("hist.challenge_blobs", 100),
     ],
@@ -76,10 +78,133 @@ pub fn run(ctx: &Ctx, out: &mut Outcome) {
 pub fn one_run(ctx: &Ctx, out: &mut Outcome, run_seed: u64) {
     let mut r = Rng::new(run_seed);
     // one tamper execution for every 5 histories (a tamper execution is ~25k presentations)
-    if r.below(5) == 0 {
-        tamper_run(ctx, out, run_seed, &mut r);
-    } else {
-        history_run(ctx, out, run_seed, &mut r);
+    match r.below(10) {
+        0 | 1 => tamper_run(ctx, out, run_seed, &mut r),
+        2 => failover_run(ctx, out, run_seed, &mut r),
+        _ => history_run(ctx, out, run_seed, &mut r),
+    }
+}
+
+/// (b') One client, one token naming two *different* server instances (same private key and
+/// protocol id, as a fleet behind one matchmaker). The first server answers requests with challenges
+/// but every response to it is lost, so the client gives up in the response step and moves to the
+/// second address, where the handshake completes. Every sealed datagram each endpoint emits goes into
+/// a per-endpoint nonce table: the client is ONE endpoint with ONE client-to-server key across the
+/// whole connection attempt, each server instance is its own endpoint.
+fn failover_run(ctx: &Ctx, out: &mut Outcome, run_seed: u64, r: &mut Rng) {
+    let mut key = [0u8; 32];
+    r.fill(&mut key);
+    let protocol = r.next_u64();
+    let now = Duration::from_secs(1_000 + r.below(100_000));
+    let a1 = nsim::addr4(0, 1, 5001);
+    let a2 = nsim::addr4(0, 2, 5002);
+    let mut s1 = Srv::new(now, 2, protocol, vec![a1], key, true);
+    let mut s2 = Srv::new(now, 2, protocol, vec![a2], key, true);
+    let timeout = *r.pick(&[1i32, 2, 3]);
+    let cid = r.next_u64();
+    let m = nsim::mint(r, now.as_secs(), protocol, 120, cid, timeout, &[a1, a2], None, &key);
+    let caddr = nsim::addr4(7, 7, 40_000);
+    let mut cli = match Cli::new(now, m.clone(), caddr) {
+        Ok(c) => c,
+        Err(e) => {
+            out.inconclusive(&format!("C17 failover: client creation failed: {e}"));
+            return;
+        }
+    };
+    let dt = Duration::from_millis(*r.pick(&[50u64, 100, 250]));
+    let mut tables = [
+        Table { seen: HashMap::new(), blobs: HashMap::new(), log: Vec::new() },
+        Table { seen: HashMap::new(), blobs: HashMap::new(), log: Vec::new() },
+        Table { seen: HashMap::new(), blobs: HashMap::new(), log: Vec::new() },
+    ];
+    let lose_responses_to_s1 = true;
+    let mut reached_second = false;
+    let mut connected = false;
+    let mut responses_to_first = 0u64;
+    let mut violation: Option<(String, String, Value)> = None;
+    let record = |tables: &mut [Table; 3], out: &mut Outcome, which: usize, server: bool, bytes: &[u8], tick: u64| -> Option<(String, String, Value)> {
+        let k = if server { &m.token.server_to_client_key } else { &m.token.client_to_server_key };
+        let (seq, p) = nsim::open(bytes, protocol, Some(k))?;
+        if matches!(p, OPacket::Request { .. }) {
+            return None; // not sealed
+        }
+        out.eval(mix(&[run_seed, which as u64, crate::rng::fnv1a(bytes)]), true);
+        tables[which].enter(out, 0, server, seq, &p, bytes, tick)
+    };
+    for tick in 0..400u64 {
+        s1.update(dt);
+        s2.update(dt);
+        if let Some((b, to)) = cli.update(dt) {
+            if let Some(v) = record(&mut tables, out, 0, false, &b, tick) {
+                violation = Some(v);
+                break;
+            }
+            let is_response = b.first().map(|x| x & 0xF) == Some(3);
+            let (srv, which) = if to == a1 { (&mut s1, 1usize) } else { (&mut s2, 2usize) };
+            if to == a2 {
+                reached_second = true;
+            }
+            if to == a1 && is_response && lose_responses_to_s1 {
+                responses_to_first += 1;
+            } else {
+                let res = srv.process(caddr, &b);
+                if let Some((dst, reply)) = res.outgoing() {
+                    if let Some(v) = record(&mut tables, out, which, true, reply, tick) {
+                        violation = Some(v);
+                        break;
+                    }
+                    if dst == caddr {
+                        cli.process(reply);
+                    }
+                }
+            }
+        }
+        for (srv, which) in [(&mut s1, 1usize), (&mut s2, 2usize)] {
+            if let SResult::Send { addr, bytes } = srv.update_client(cid) {
+                if let Some(v) = record(&mut tables, out, which, true, &bytes, tick) {
+                    violation = Some(v);
+                    break;
+                }
+                if addr == caddr && cli.c.server_addr() == srv.addrs[0] {
+                    cli.process(&bytes);
+                }
+            }
+        }
+        if violation.is_some() {
+            break;
+        }
+        if cli.c.is_connected() && s2.s.is_client_connected(cid) {
+            connected = true;
+            // a few session datagrams from the client, then stop
+            for _ in 0..3 {
+                if let Ok((_, d)) = cli.payload(&r.bytes(10)) {
+                    if let Some(v) = record(&mut tables, out, 0, false, &d, tick) {
+                        violation = Some(v);
+                    }
+                }
+            }
+            break;
+        }
+        if cli.c.is_disconnected() {
+            break;
+        }
+    }
+    if let Some((sig, detail, w)) = violation {
+        out.violation(
+            ctx,
+            &sig,
+            "within one connection attempt and the session that follows an endpoint never seals two different datagrams under the same key with the same sequence number",
+            format!("fail-over history: {}", detail),
+            json!({"property": "C17", "engine": ctx.engine, "run_seed": format!("{:#x}", run_seed), "mode": "failover", "witness": w}),
+        );
+        return;
+    }
+    out.count("hist.failover_two_servers");
+    if reached_second && responses_to_first > 0 {
+        out.count("hist.failover_after_response_step");
+    }
+    if connected {
+        out.count("hist.failover_connected_at_second_server");
     }
 }
 
